@@ -17,6 +17,7 @@ import (
 	"encoding/base64"
 	"encoding/json"
 	"fmt"
+	"math/rand"
 	"net/http"
 	"net/http/httptest"
 	"sort"
@@ -81,7 +82,7 @@ type c16Case struct {
 	Opt    string `json:"options"` // all | none | optin | optout
 }
 
-var optSets = []string{"all", "none", "optin", "optout", "all", "all"}
+var optSets = []string{"all", "none", "optin", "optout", "all", "hist", "all", "hist"}
 
 func caseOf(driver, stream string, idx int) c16Case {
 	return c16Case{Kind: "c16", Driver: driver, Stream: stream, Idx: idx, Opt: optSets[idx%len(optSets)]}
@@ -90,17 +91,108 @@ func caseOf(driver, stream string, idx int) c16Case {
 var optinPrefixes = []string{"text/", "application/json", "multipart/"}
 var optoutPrefixes = []string{"image/", "application/octet", "application/x-www"}
 
-func newHAR(opt string) *har.Logger {
-	l := har.NewLogger()
-	switch opt {
-	case "none":
-		l.SetOption(har.BodyLogging(false), har.PostDataLogging(false))
-	case "optin":
-		l.SetOption(har.BodyLoggingForContentTypes(optinPrefixes...), har.PostDataLoggingForContentTypes(optinPrefixes...))
-	case "optout":
-		l.SetOption(har.SkipBodyLoggingForContentTypes(optoutPrefixes...), har.SkipPostDataLoggingForContentTypes(optoutPrefixes...))
+// optStep is one SetOption call: which capture decision it configures
+// ("body" = response bodies, "post" = request post data) and how.
+type optStep struct {
+	Kind     string   `json:"kind"`
+	Mode     string   `json:"mode"` // all | none | optin | optout
+	Prefixes []string `json:"prefixes,omitempty"`
+}
+
+func (st optStep) option() har.Option {
+	switch {
+	case st.Kind == "body" && st.Mode == "all":
+		return har.BodyLogging(true)
+	case st.Kind == "body" && st.Mode == "none":
+		return har.BodyLogging(false)
+	case st.Kind == "body" && st.Mode == "optin":
+		return har.BodyLoggingForContentTypes(st.Prefixes...)
+	case st.Kind == "body":
+		return har.SkipBodyLoggingForContentTypes(st.Prefixes...)
+	case st.Mode == "all":
+		return har.PostDataLogging(true)
+	case st.Mode == "none":
+		return har.PostDataLogging(false)
+	case st.Mode == "optin":
+		return har.PostDataLoggingForContentTypes(st.Prefixes...)
 	}
-	return l
+	return har.SkipPostDataLoggingForContentTypes(st.Prefixes...)
+}
+
+// optCfg is the configuration history of a logger and the decisions in force:
+// each option replaces the earlier options of its kind completely, so the
+// state of a kind is its last step (a fresh logger captures everything).
+type optCfg struct {
+	name  string
+	steps []optStep
+	state map[string]optStep
+}
+
+func newOptCfg() *optCfg {
+	return &optCfg{state: map[string]optStep{"body": {Kind: "body", Mode: "all"}, "post": {Kind: "post", Mode: "all"}}}
+}
+
+// apply records steps and applies them to l in order.
+func (oc *optCfg) apply(l *har.Logger, name string, steps []optStep) {
+	oc.name = name
+	for _, st := range steps {
+		l.SetOption(st.option())
+		oc.steps = append(oc.steps, st)
+		oc.state[st.Kind] = st
+	}
+}
+
+// wants says whether the options in force ask for the body (kind "body") or
+// post data (kind "post") of a message with content type ct.
+func (oc *optCfg) wants(kind, ct string) bool {
+	st := oc.state[kind]
+	switch st.Mode {
+	case "none":
+		return false
+	case "optin":
+		return hasPrefixFold(ct, st.Prefixes)
+	case "optout":
+		return !hasPrefixFold(ct, st.Prefixes)
+	}
+	return true
+}
+
+func (oc *optCfg) describe() string {
+	b, _ := json.Marshal(map[string]interface{}{"set": oc.name, "in_force": oc.state, "history_len": len(oc.steps)})
+	return string(b)
+}
+
+var prefixPool = []string{"image/", "text/", "application/json", "application/octet", "multipart/", "application/x-www", "video/", "TEXT/", "application/"}
+
+// stepsFor returns the SetOption calls of an option set. explicit makes "all"
+// spell its two calls out (needed on a logger that is being re-configured).
+func stepsFor(name string, rng *rand.Rand, explicit bool) []optStep {
+	switch name {
+	case "none":
+		return []optStep{{Kind: "body", Mode: "none"}, {Kind: "post", Mode: "none"}}
+	case "optin":
+		return []optStep{{Kind: "body", Mode: "optin", Prefixes: optinPrefixes}, {Kind: "post", Mode: "optin", Prefixes: optinPrefixes}}
+	case "optout":
+		return []optStep{{Kind: "body", Mode: "optout", Prefixes: optoutPrefixes}, {Kind: "post", Mode: "optout", Prefixes: optoutPrefixes}}
+	case "hist":
+		// a configuration history: 1-5 calls in any order and kind
+		var steps []optStep
+		for i, n := 0, 1+rng.Intn(5); i < n; i++ {
+			st := optStep{Kind: []string{"body", "post"}[rng.Intn(2)], Mode: []string{"all", "none", "optin", "optout"}[rng.Intn(4)]}
+			if st.Mode == "optin" || st.Mode == "optout" {
+				perm := rng.Perm(len(prefixPool))
+				for _, j := range perm[:1+rng.Intn(3)] {
+					st.Prefixes = append(st.Prefixes, prefixPool[j])
+				}
+			}
+			steps = append(steps, st)
+		}
+		return steps
+	}
+	if explicit {
+		return []optStep{{Kind: "body", Mode: "all"}, {Kind: "post", Mode: "all"}}
+	}
+	return nil
 }
 
 func hasPrefixFold(ct string, ps []string) bool {
@@ -111,20 +203,6 @@ func hasPrefixFold(ct string, ps []string) bool {
 		}
 	}
 	return false
-}
-
-// captureWanted says whether the configured options ask for the body of a
-// message with content type ct.
-func captureWanted(opt, ct string) bool {
-	switch opt {
-	case "none":
-		return false
-	case "optin":
-		return hasPrefixFold(ct, optinPrefixes)
-	case "optout":
-		return !hasPrefixFold(ct, optoutPrefixes)
-	}
-	return true
 }
 
 // ---------------------------------------------------------------------------
@@ -319,7 +397,7 @@ func trimPartialRune(b []byte) []byte {
 
 // checkRequest compares the logged request (neutral view; text already
 // decoded into textBytes) with the spec. src is "export" or "json".
-func checkRequest(src string, jr *jRequest, textBytes []byte, s *msgx.Spec, opt string) []finding {
+func checkRequest(src string, jr *jRequest, textBytes []byte, s *msgx.Spec, oc *optCfg) []finding {
 	var fs []finding
 	add := func(clause, class, what string) {
 		fs = append(fs, finding{"C16:" + clause + ":" + class, "[" + src + "] " + what})
@@ -371,9 +449,9 @@ func checkRequest(src string, jr *jRequest, textBytes []byte, s *msgx.Spec, opt 
 		if pd != nil && (len(textBytes) > 0 || len(pd.Params) > 0) {
 			add("post-data", "no-body", fmt.Sprintf("request has no body but postData carries %d text bytes / %d params", len(textBytes), len(pd.Params)))
 		}
-	case !captureWanted(opt, s.CType):
+	case !oc.wants("post", s.CType):
 		if pd != nil && (len(textBytes) > 0 || len(pd.Params) > 0) {
-			add("capture-options", "post-data", fmt.Sprintf("post-data logging is off for content type %q under option set %s, but postData carries %d text bytes / %d params", s.CType, opt, len(textBytes), len(pd.Params)))
+			add("capture-options", "post-data", fmt.Sprintf("post-data logging is off for content type %q under the options in force %s, but postData carries %d text bytes / %d params", s.CType, oc.describe(), len(textBytes), len(pd.Params)))
 		}
 	case pd == nil:
 		if len(body) > 0 {
@@ -456,7 +534,7 @@ func checkRequest(src string, jr *jRequest, textBytes []byte, s *msgx.Spec, opt 
 	return fs
 }
 
-func checkResponse(src string, jr *jResponse, textBytes []byte, s *msgx.Spec, opt string) []finding {
+func checkResponse(src string, jr *jResponse, textBytes []byte, s *msgx.Spec, oc *optCfg) []finding {
 	var fs []finding
 	add := func(clause, class, what string) {
 		fs = append(fs, finding{"C16:" + clause + ":" + class, "[" + src + "] " + what})
@@ -498,9 +576,9 @@ func checkResponse(src string, jr *jResponse, textBytes []byte, s *msgx.Spec, op
 	}
 	cls := s.Framing + "+" + s.CodingClass()
 	switch {
-	case !captureWanted(opt, s.CType):
+	case !oc.wants("body", s.CType):
 		if len(textBytes) > 0 {
-			add("capture-options", "content", fmt.Sprintf("body logging is off for content type %q under option set %s, but content.text carries %d bytes", s.CType, opt, len(textBytes)))
+			add("capture-options", "content", fmt.Sprintf("body logging is off for content type %q under the options in force %s, but content.text carries %d bytes", s.CType, oc.describe(), len(textBytes)))
 		}
 	case s.Status == 206 && s.CodingKind != "" && bytes.Equal(textBytes, s.WireBody()):
 		// raw partial content accepted
@@ -600,7 +678,7 @@ func roundTripClass(a, b *har.Entry) string {
 
 // judge runs every comparison for one logged exchange. e is the entry from
 // Export(); doc the export handler's JSON.
-func judge(r *vh.Run, c c16Case, e *har.Entry, doc []byte, key string, reqSpec, respSpec *msgx.Spec, witness map[string]interface{}) {
+func judge(r *vh.Run, c c16Case, oc *optCfg, e *har.Entry, doc []byte, key string, reqSpec, respSpec *msgx.Spec, witness map[string]interface{}) {
 	viol := func(f finding) { r.ViolationCase(c, f.sig, f.what, witness) }
 	// 1. the exported entry against the spec
 	je := fromHAR(e)
@@ -611,10 +689,10 @@ func judge(r *vh.Run, c c16Case, e *har.Entry, doc []byte, key string, reqSpec, 
 	if je.Response != nil && je.Response.Content != nil {
 		resText = []byte(je.Response.Content.Text)
 	}
-	for _, f := range checkRequest("export", je.Request, reqText, reqSpec, c.Opt) {
+	for _, f := range checkRequest("export", je.Request, reqText, reqSpec, oc) {
 		viol(f)
 	}
-	for _, f := range checkResponse("export", je.Response, resText, respSpec, c.Opt) {
+	for _, f := range checkResponse("export", je.Response, resText, respSpec, oc) {
 		viol(f)
 	}
 	// 2. the JSON document, decoded by the harness
@@ -645,10 +723,10 @@ func judge(r *vh.Run, c c16Case, e *har.Entry, doc []byte, key string, reqSpec, 
 			viol(finding{"C16:json:content-encoding", "content.text cannot be decoded: " + err.Error()})
 		}
 	}
-	for _, f := range checkRequest("json", jentry.Request, jReqText, reqSpec, c.Opt) {
+	for _, f := range checkRequest("json", jentry.Request, jReqText, reqSpec, oc) {
 		viol(f)
 	}
-	for _, f := range checkResponse("json", jentry.Response, jResText, respSpec, c.Opt) {
+	for _, f := range checkResponse("json", jentry.Response, jResText, respSpec, oc) {
 		viol(f)
 	}
 	// 3. har's own Unmarshal gives back the same entry
@@ -735,7 +813,10 @@ func direct(r *vh.Run, c c16Case) {
 		return
 	}
 	defer remove()
-	l := newHAR(c.Opt)
+	l, oc := har.NewLogger(), newOptCfg()
+	oc.apply(l, c.Opt, stepsFor(c.Opt, r.Rng(c.Stream+"-options", c.Idx), false))
+	witness["options_in_force"] = oc.state
+	witness["option_calls"] = oc.steps
 	if err := l.ModifyRequest(req); err != nil {
 		r.Count("requests_refused_by_logger", 1)
 		r.Class("refused|" + reqSpec.BodyKind)
@@ -766,7 +847,7 @@ func direct(r *vh.Run, c c16Case) {
 		r.ViolationCase(c, "C16:json:export-handler", err.Error(), witness)
 		return
 	}
-	judge(r, c, h.Log.Entries[0], doc, key, reqSpec, respSpec, witness)
+	judge(r, c, oc, h.Log.Entries[0], doc, key, reqSpec, respSpec, witness)
 	if c.Idx%1201 == 11 {
 		s := doc
 		if len(s) > 1500 {
@@ -793,29 +874,24 @@ func runDirect(r *vh.Run, k int) {
 // ---------------------------------------------------------------------------
 // through a real proxy
 
+// proxyRun holds ONE proxy whose HAR logger is re-configured with SetOption
+// before every exchange: a configuration history that grows over the batch.
 type proxyRun struct {
-	rigs map[string]*msgx.Rig
-	logs map[string]*har.Logger
+	g  *msgx.Rig
+	l  *har.Logger
+	oc *optCfg
 }
 
-func (p *proxyRun) rig(opt string) (*msgx.Rig, *har.Logger) {
-	if g, ok := p.rigs[opt]; ok {
-		return g, p.logs[opt]
-	}
-	l := newHAR(opt)
-	g := msgx.NewRig(func(px *martian.Proxy) {
-		px.SetRequestModifier(l)
-		px.SetResponseModifier(l)
+func newProxyRun() *proxyRun {
+	p := &proxyRun{l: har.NewLogger(), oc: newOptCfg()}
+	p.g = msgx.NewRig(func(px *martian.Proxy) {
+		px.SetRequestModifier(p.l)
+		px.SetResponseModifier(p.l)
 	})
-	p.rigs[opt], p.logs[opt] = g, l
-	return g, l
+	return p
 }
 
-func (p *proxyRun) close() {
-	for _, g := range p.rigs {
-		g.Close()
-	}
-}
+func (p *proxyRun) close() { p.g.Close() }
 
 func (p *proxyRun) one(r *vh.Run, c c16Case) {
 	rng := r.Rng(c.Stream, c.Idx)
@@ -832,8 +908,11 @@ func (p *proxyRun) one(r *vh.Run, c c16Case) {
 		r.SetCase(c)
 		r.Inconclusive(why, witness)
 	}
-	g, l := p.rig(c.Opt)
+	g, l := p.g, p.l
 	l.Reset()
+	p.oc.apply(l, c.Opt, stepsFor(c.Opt, r.Rng(c.Stream+"-options", c.Idx), true))
+	witness["options_in_force"] = p.oc.state
+	witness["option_calls_so_far"] = len(p.oc.steps)
 	var res *msgx.Result
 	var err error
 	for try := 0; try < 2; try++ {
@@ -880,13 +959,13 @@ func (p *proxyRun) one(r *vh.Run, c c16Case) {
 		inconc("origin did not receive the generated request body")
 		return
 	}
-	judge(r, c, e, doc, key, reqSpec, respSpec, witness)
+	judge(r, c, p.oc, e, doc, key, reqSpec, respSpec, witness)
 }
 
 func runProxy(r *vh.Run, k int) {
 	total := r.Pick(200, 2000)
 	per := total / nProxy
-	p := &proxyRun{rigs: map[string]*msgx.Rig{}, logs: map[string]*har.Logger{}}
+	p := newProxyRun()
 	defer p.close()
 	for i := 0; i < per; i++ {
 		idx := k*per + i
@@ -914,7 +993,7 @@ func replay(r *vh.Run, raw json.RawMessage) {
 	case c.Kind == "c16" && c.Driver == "direct":
 		direct(r, c)
 	case c.Kind == "c16" && c.Driver == "proxy":
-		p := &proxyRun{rigs: map[string]*msgx.Rig{}, logs: map[string]*har.Logger{}}
+		p := newProxyRun()
 		defer p.close()
 		p.one(r, c)
 	default:
